@@ -309,6 +309,9 @@ func (w *dWorld) opGCBlocked(cmd []string) (string, string) {
 	select {
 	case <-ch:
 		w.violate("C09/gc/runs-with-request-in-flight", "gcPods completed while a request for "+strings.Join(w.order, ",")+" was in flight")
+		// the same fact seen from C05: a pass that is not excluded from requests applies its (by then stale) "pod is gone"
+		// verdicts to records and bindings a request writes meanwhile - an acknowledged ADD can lose its record and address
+		w.violate("C05/gc/not-excluded-from-requests", "a GC pass ran to completion while a request for "+strings.Join(w.order, ",")+" was in flight: what it decided from its snapshot is applied over what the request acknowledges")
 		w.api.mu.Lock()
 		w.api.failLs = false
 		w.api.mu.Unlock()
